@@ -183,22 +183,43 @@ class Workdir:
         shutil.rmtree(self.path, ignore_errors=True)
 
 
+HARNESS_DROPPED = []
+
+
 def build_harness(wd, tags="verif"):
-    """compiles /verif/harness/*.go into knut's module via -overlay; returns (ok, path or log)"""
-    repl = {}
-    for f in sorted(glob.glob(os.path.join(VERIF, "harness", "*.go"))):
-        repl[os.path.join(REPO, "cmd", "verifharness", os.path.basename(f))] = f
-    for f in sorted(glob.glob(os.path.join(VERIF, "harness", "overlay", "**", "*.go"), recursive=True)):
-        rel = os.path.relpath(f, os.path.join(VERIF, "harness", "overlay"))
-        repl[os.path.join(REPO, rel)] = f
-    ov = os.path.join(wd.path, "overlay.json")
-    json.dump({"Replace": repl}, open(ov, "w"))
-    out = os.path.join(wd.path, "verifharness")
-    p = subprocess.run(["go", "build", "-tags", tags, "-overlay", ov, "-o", out, "./cmd/verifharness"],
-                       cwd=REPO, env=GOENV, stdout=subprocess.PIPE, stderr=subprocess.STDOUT, text=True, timeout=900)
-    if p.returncode != 0:
-        return False, p.stdout[-4000:]
-    return True, out
+    """compiles /verif/harness/*.go into knut's module via -overlay; returns (ok, path or log).
+    The harness is one Go package that calls exported functions of knut in-process for some properties.  When a change
+    to knut alters the signature of such a function, only the harness files that use it stop compiling: they are left
+    out (HARNESS_DROPPED) and the build is tried again, so that the checks of the other properties - which drive the
+    binary - still run; a check whose generator or observer went away with a dropped file reports the build failure."""
+    files = sorted(glob.glob(os.path.join(VERIF, "harness", "*.go")))
+    keep_always = {"main.go", "vutil.go", "journal.go", "knutrun.go", "core.go"}
+    del HARNESS_DROPPED[:]
+    log_all = ""
+    for _ in range(5):
+        repl = {}
+        for f in files:
+            repl[os.path.join(REPO, "cmd", "verifharness", os.path.basename(f))] = f
+        for f in sorted(glob.glob(os.path.join(VERIF, "harness", "overlay", "**", "*.go"), recursive=True)):
+            rel = os.path.relpath(f, os.path.join(VERIF, "harness", "overlay"))
+            repl[os.path.join(REPO, rel)] = f
+        ov = os.path.join(wd.path, "overlay.json")
+        json.dump({"Replace": repl}, open(ov, "w"))
+        out = os.path.join(wd.path, "verifharness")
+        p = subprocess.run(["go", "build", "-tags", tags, "-overlay", ov, "-o", out, "./cmd/verifharness"],
+                           cwd=REPO, env=GOENV, stdout=subprocess.PIPE, stderr=subprocess.STDOUT, text=True, timeout=900)
+        if p.returncode == 0:
+            if HARNESS_DROPPED and not source_changed():
+                # the tree is the one the harness was written against: a file that does not compile is our own error
+                return False, "harness files do not compile against the unchanged tree: %s\n%s" % (HARNESS_DROPPED, log_all[-3000:])
+            return True, out
+        log_all += p.stdout[-3000:]
+        bad = set(re.findall(r"(?:cmd/verifharness|/harness)/(\w+\.go):\d+", p.stdout)) - keep_always
+        if not bad:
+            break
+        HARNESS_DROPPED.extend(sorted(bad))
+        files = [f for f in files if os.path.basename(f) not in bad]
+    return False, log_all[-4000:]
 
 
 def build_knut(wd, tags="verif", race=False):
